@@ -57,7 +57,8 @@ def gen(rng, tier, idx):
            'slice': rng.choice(['none', 'full', 'sub', 'empty', 'single']),
            'compression': rng.random() < 0.5, 'dst_sparse': rng.random() < 0.6,
            'max_elements': rng.choice([1, 3, 7, 100000]), 'uint_ok': rng.random() < 0.3,
-           'contiguous': rng.random() < 0.3}
+           'contiguous': rng.random() < 0.3,
+           'dense_chunks': rng.choice([None, [1, 1], [4, 5], [3, 2], [1000, 1], [1, 1000]])}
     return {'op': op, 'mat': m, 'cfg': cfg, 'sched': common.draw_sched(rng), 'kcfg': common.draw_kernel_cfg(rng)}
 
 
@@ -284,7 +285,15 @@ def run_op(scn, sb, res):
             world.write_h5ad(p, Mi, ['f%d_c%d' % (fi, i) for i in range(n)], genes, encoding=enc,
                              dtype=scn['mat']['dtype'], layer=layer)
             k = int(r.integers(1, n + 1))
-            rows = sorted(int(x) for x in r.permutation(n)[:k])
+            rows = [int(x) for x in r.permutation(n)[:k]]
+            u = r.random()
+            if u < 0.4:
+                rows = sorted(rows)
+            elif u < 0.7 and n >= 4:
+                # a gap-free block of rows in shuffled order (first..last covers exactly len(rows) rows)
+                a0 = int(r.integers(0, n - 3))
+                blk = list(range(a0, min(n, a0 + int(r.integers(4, 8)))))
+                rows = [int(x) for x in r.permutation(blk)]
             src_rows.append({'path': p, 'rows': rows, 'layer': layer or 'X'})
             blocks.append(Mi[rows])
             names += ['f%d_c%d' % (fi, i) for i in rows]
@@ -306,8 +315,12 @@ def run_op(scn, sb, res):
         enc = ['csr', 'csc', 'dense'][int(r.integers(0, 3))]
         layer = 'X' if r.random() < 0.3 else 'lay'
         src = sb.p('in', 'm.h5ad')
+        dense_chunks = None
+        if enc == 'dense' and M.size and cfg.get('dense_chunks'):
+            dense_chunks = tuple(cfg['dense_chunks'])
+            what += ' h5 chunks %r' % (dense_chunks,)
         world.write_h5ad(src, M, ids, genes, encoding=enc, dtype=scn['mat']['dtype'],
-                         layer=None if layer == 'X' else layer)
+                         layer=None if layer == 'X' else layer, chunks=dense_chunks)
         if cfg.get('contiguous') and enc != 'dense':
             # the same layer stored in contiguous (un-chunked) HDF5 datasets
             key = 'X' if layer == 'X' else 'layers/%s' % layer
